@@ -763,7 +763,19 @@ func ruleStatsPure(r *Run) {
 				readOutside := false
 				eachInstr(fn, func(z ssa.Instruction) {
 					if u, ok := z.(*ssa.UnOp); ok && u.Op == token.MUL && u.X == ssa.Value(al) && !isStats[z.Block()] {
-						readOutside = true
+						// the spill cell of a result (functions with defers return through one): what a return
+						// inside stats-only code yields is the Return clause's subject above
+						onlyReturned := u.Referrers() != nil && len(*u.Referrers()) > 0
+						if onlyReturned {
+							for _, ref := range *u.Referrers() {
+								if _, isRet := ref.(*ssa.Return); !isRet {
+									onlyReturned = false
+								}
+							}
+						}
+						if !onlyReturned {
+							readOutside = true
+						}
 					}
 				})
 				for _, g := range allFuncsDeep(fn)[1:] {
